@@ -35,18 +35,21 @@ type compiler struct {
 	curStmt ast.Statement
 	inCheck bool
 
-	writeDepth int // nesting of collections currently being written
-	callDepth  int // nesting of calls being evaluated
+	writeDepth int               // nesting of collections currently being written
+	callDepth  int               // nesting of calls being evaluated
+	writing    map[sliceRef]bool // the slices an output tag is in the middle of printing
+	writeErr   error             // set by write when it had to leave something out
 }
 
 // maxCallDepth bounds the nesting of calls - of functions defined in a
 // template (recursion included) and of helpers whose blocks call again.
 const maxCallDepth = 1000
 
-// maxWriteDepth bounds the nesting of collections an output tag prints, so
-// that a slice that (directly or indirectly) contains itself ends the output
-// there instead of overflowing the stack.
-const maxWriteDepth = 1000
+// maxWriteDepth bounds the nesting of values an output tag prints. A slice
+// that contains itself is recognised when it is met again; the bound is the
+// backstop for values that unwrap to themselves without end. The results of
+// nested blocks nest as deeply as the blocks do, so the bound is generous.
+const maxWriteDepth = 100000
 
 func (c *compiler) compile() (string, error) {
 	bb := &strings.Builder{}
@@ -101,7 +104,14 @@ func (c *compiler) safeWrite(bb *strings.Builder, i interface{}) (err error) {
 	}()
 
 	c.write(bb, i)
-	return nil
+	err, c.writeErr = c.writeErr, nil
+	return err
+}
+
+// sliceRef identifies a slice by its first element and its length.
+type sliceRef struct {
+	first *interface{}
+	n     int
 }
 
 func (c *compiler) write(bb *strings.Builder, i interface{}) {
@@ -113,6 +123,8 @@ func (c *compiler) write(bb *strings.Builder, i interface{}) {
 	c.writeDepth++
 	defer func() { c.writeDepth-- }()
 	if c.writeDepth > maxWriteDepth {
+		// nothing is left out silently: the tag fails
+		c.writeErr = fmt.Errorf("values nested deeper than %d levels cannot be printed", maxWriteDepth)
 		return
 	}
 
@@ -148,6 +160,19 @@ func (c *compiler) write(bb *strings.Builder, i interface{}) {
 			c.write(bb, ii)
 		}
 	case []interface{}:
+		if len(t) > 0 {
+			// a slice met again while it is being printed contains itself
+			at := sliceRef{&t[0], len(t)}
+			if c.writing[at] {
+				c.writeErr = fmt.Errorf("a value that contains itself cannot be printed")
+				return
+			}
+			if c.writing == nil {
+				c.writing = map[sliceRef]bool{}
+			}
+			c.writing[at] = true
+			defer delete(c.writing, at)
+		}
 		for _, ii := range t {
 			c.write(bb, ii)
 		}
